@@ -318,6 +318,76 @@ func (c *Ctx) wrappedResetCover() {
 	} else {
 		c.ok(key+":reader", fn.Pos(), "the reader is installed on every returning path")
 	}
+	// every other field of the wrapper that holds state of the previous stream (an error kept for later, a flag) is
+	// set back to its zero value on every returning path: by a store of the zero value to the field, or by replacing
+	// the whole value
+	st := derefStruct(fn.Params[0].Type())
+	if st == nil {
+		return
+	}
+	for i := 0; i < st.NumFields(); i++ {
+		f := st.Field(i)
+		switch f.Type().Underlying().(type) {
+		case *types.Interface:
+			if !isErrorType(f.Type()) {
+				continue // the reader and the parser
+			}
+		case *types.Basic:
+		default:
+			continue
+		}
+		written := false
+		for _, g := range c.methodsOf(wp) {
+			if g == fn {
+				continue
+			}
+			for _, b := range g.Blocks {
+				for _, in := range b.Instrs {
+					if s2, ok := in.(*ssa.Store); ok && fieldOfAddr(s2.Addr) == f {
+						written = true
+					}
+				}
+			}
+		}
+		if !written {
+			continue
+		}
+		clr := map[*ssa.BasicBlock]bool{}
+		for _, b := range fn.Blocks {
+			for _, in := range b.Instrs {
+				s2, ok := in.(*ssa.Store)
+				if !ok {
+					continue
+				}
+				if fieldOfAddr(s2.Addr) == f && isEmptyValue(s2.Val) {
+					clr[b] = true
+				}
+				if k, isC := s2.Val.(*ssa.Const); isC && k.Value == nil && fieldOfAddr(s2.Addr) == f {
+					clr[b] = true
+				}
+				if s2.Addr == ssa.Value(fn.Params[0]) {
+					if k, isC := s2.Val.(*ssa.Const); isC && k.Value == nil {
+						clr[b] = true // *s = T{} followed by the fields that are kept
+					}
+				}
+			}
+		}
+		// a later non-zero store to the field in Reset defeats a whole-value reset
+		for _, b := range fn.Blocks {
+			for _, in := range b.Instrs {
+				if s2, ok := in.(*ssa.Store); ok && fieldOfAddr(s2.Addr) == f {
+					if k, isC := s2.Val.(*ssa.Const); !(isC && k.Value == nil) && !isEmptyValue(s2.Val) {
+						clr = map[*ssa.BasicBlock]bool{}
+					}
+				}
+			}
+		}
+		if b := avoid(clr); b != nil {
+			c.fail(key+":state:"+f.Name(), b.Instrs[len(b.Instrs)-1].Pos(), "WrappedParser.Reset can return without setting %s back to its zero value: state of the previous stream (%s is written by Parse) reaches the next one", f.Name(), f.Name())
+		} else {
+			c.ok(key+":state:"+f.Name(), fn.Pos(), "%s is set back to its zero value on every returning path", f.Name())
+		}
+	}
 }
 
 // recvPathOf: v is a load of a field path of fn's receiver.
